@@ -32,7 +32,7 @@ Deviations (representation only):
 * `last_complete_prefix_index` is stored as `next = index + 1` (`0` = `-1`/None);
 * `os.listdir(prefixdir)` is a parameter `ls : prefix index → names` of each slice (the crawler
   runs synchronously, nothing else changes the directories during a slice); `EnvironmentError`
-  ⇒ `[]` is the same as an empty listing; `sort` is `List.mergeSort`;
+  ⇒ `[]` is the same as an empty listing; `sort` is an insertion sort;
 * timing statistics, `current-cycle-start-time`, subclass hooks and subclass state are not modelled.
 -/
 namespace Tahoe.Storage.Crawler
@@ -54,7 +54,7 @@ structure St where
 /-- One completed `process_bucket(cycle, prefix, prefixdir, bucket)` call. -/
 structure Entry where
   cycle : Nat
-  prefix : Nat
+  pfx : Nat
   bucket : Nat
   deriving DecidableEq, Repr
 
@@ -95,8 +95,13 @@ def processPrefixdir (cyc i : Nat) : Option Nat → List Nat → List Bool → P
         let r := processPrefixdir cyc i (some b) rest (tick o).2
         { r with log := ⟨cyc, i, b⟩ :: r.log }
 
-/-- `buckets = os.listdir(prefixdir); buckets.sort()` -/
-def sortNames (l : List Nat) : List Nat := l.mergeSort (fun a b => decide (a ≤ b))
+/-- ordered insertion -/
+def insertName (a : Nat) : List Nat → List Nat
+  | [] => [a]
+  | b :: r => if a ≤ b then a :: b :: r else b :: insertName a r
+
+/-- `buckets = os.listdir(prefixdir); buckets.sort()` (modelled as insertion sort) -/
+def sortNames (l : List Nat) : List Nat := l.foldr insertName []
 
 structure LR where
   next : Nat
@@ -171,5 +176,19 @@ def run (np : Nat) : St → List Event → St × List Entry
     let r := step np s ev
     let r2 := run np r.1 evs
     (r2.1, r.2 ++ r2.2)
+
+/-! ## Vocabulary of the C27 statements -/
+
+/-- Bucket `b` of prefix `p` is present in the listing of every slice (complete or killed) that
+    works on cycle `c`, along the schedule `evs` started in state `s`. -/
+def PresentThroughout (np c p b : Nat) : St → List Event → Prop
+  | _, [] => True
+  | s, ev :: evs =>
+    (nextCycle s.p.lcf = c → ∀ ls, ev.listing = some ls → b ∈ ls p) ∧
+    PresentThroughout np c p b (step np s ev).1 evs
+
+/-- Every name listed under prefix `i` belongs to prefix `i` (`pf` = "prefix index of a name"). -/
+def ListingsFollowPrefixes (pf : Nat → Nat) (evs : List Event) : Prop :=
+  ∀ ev ∈ evs, ∀ ls, ev.listing = some ls → ∀ i x, x ∈ ls i → pf x = i
 
 end Tahoe.Storage.Crawler
